@@ -35,7 +35,7 @@ W = {
     "xonsh_cr": [case("xonsh", ["a\rb"])],
     "xonsh_display_unsanitised": [case("xonsh", [("ab", "a\nb", "")])],
     "xonsh_nospace_after_quoting": [case("xonsh", ["my dir/"], nospace="/")],
-    "bashble_unsanitised": [case("bash-ble", ["a/\tb"], nospace="/"), case("bash-ble", [("a\tb", "a\tb", "line1\nline2")]), case("bash-ble", ["a/\tb"], nospace="b"),
+    "bashble_unsanitised": [case("bash-ble", ["a/\tb", "a/"], nospace="/"), case("bash-ble", [("a\tb", "a\tb", "line1\nline2")]), case("bash-ble", ["a/\tb"], nospace="b"),
                             case("bash-ble", [], msgs=["tab\there"])],
     "oil_unsanitised": [case("oil", ["a\nb", "c\rd"]), case("oil", ["a\nb", "c"], msgs=["m"])],
     "bash_listmode_unsanitised": [case("bash", [("cd", "x\nd", ""), ("ce", "ye", "")], env={"bashCompType": "63"})],
